@@ -278,7 +278,9 @@ theorem stepEffect_linv (p : Params) (hcap : p.cursorCap ≠ 0) (s s' : Sys) (e 
     simp only [stepEffect] at h
     split at h
     · cases h; exact ⟨by simp only; omega, rfl, rfl, keep _ rfl rfl (by intro r c; nofun)⟩
-    · split at h <;> cases h
+    · split at h <;> first
+        | (cases h; exact ⟨by simp only; omega, rfl, rfl, keep _ rfl rfl (by intro r c; nofun)⟩)
+        | cases h
 
 /-- The replies still to come before / after a label. -/
 def remBefore (l : VaxisModel.Model.Startup.Label) (rem : List Seq) : List Seq :=
